@@ -99,6 +99,8 @@ def nonuse(cx, chk, cfg, F):
     for f, im in api.branch_scoped_methods(F):
         hit = [p for p in cx.paths(cfg, f["path"]) if is_hit_path(p)]
         bad = [m for p in hit for m in mutation_events(p, False)]
+        if not hit:
+            raise AnalysisError("C06.R1: no path of %s returns (.., None): its hit branch was not recognised (%s)" % (f["q"], cfg))
         if bad:
             chk.violation("C06.R1", "%s|hit-branch-mutates" % f["q"], "the hit branch of %s changes the cache: %s" % (f["q"], bad[0]["text"]),
                           f["span"]["file"], bad[0].get("ln") or f["span"]["lo"], f["q"], None, cfg)
